@@ -385,3 +385,14 @@ func vpH_C01_gs_repair_step() {
 	vpCover(!below && asked0 >= gs.params.MaxIHaveLength, "the IWANT budget of the previous heartbeat was exhausted")
 	vpCover(!below && have0 > gs.params.MaxIHaveMessages, "the IHAVE budget of the previous heartbeat was exhausted")
 }
+
+
+// ---- further single-node lemmas the network statement composes from (shared harnesses, run under C01 as well) -------
+// forward_step: from an arbitrary router state a publication / forwarded message is queued to every direct peer, every
+// floodsub-only peer at the publish threshold and every mesh or fanout member - also by a node that neither subscribes nor
+// relays and finds no fanout candidate (mixed-protocol networks: its floodsub neighbours must still get the message).
+func vpH_C01_gs_forward_step() { vpH_C06_gs_rpcs() }
+
+// announce_retry: "once interest announcements have propagated" - an announcement that hit a full queue is retried, for
+// subscriptions and for relay-only interest alike.
+func vpH_C01_announce_retry() { vpH_C05_retry() }
